@@ -34,6 +34,9 @@ def tobytes(arr):
 def max(arr, axis=None):
     if axis is not None:
         axis = tuple(axis)
+        # No axis to maximize over: nothing to do (torch.amax would reduce over all axes).
+        if len(axis) == 0:
+            return arr
 
     if isinstance(arr, np.ndarray):
         return np.max(arr, axis=axis)
